@@ -81,6 +81,11 @@ def call(w, op, variant=0):
         return drive_agen(c.walk(OID((1, 3, 6, 1, 2, 1, 1))), limit=40)
     if op == "bulkwalk":
         return drive_agen(c.bulkwalk([OID((1, 3, 6, 1, 2, 1, 1))], bulk_size=2), limit=40)
+    if op == "walk-warn":
+        # lenient walks forgive a device that does not advance, nothing else
+        return drive_agen(c.walk(OID((1, 3, 6, 1, 2, 1, 1)), errors=rig.lenient()), limit=40)
+    if op == "multiwalk-warn":
+        return drive_agen(c.multiwalk([OID((1, 3, 6, 1, 2, 1, 1)), OID((1, 3, 6, 1, 2, 1, 2))], errors=rig.lenient()), limit=40)
     raise ValueError(op)
 
 
@@ -111,7 +116,7 @@ def _norm(op, res):
         return (_o(res.oid), rig.to_tuple(res.value))
     if op == "bulkget":
         return ([(_o(k), rig.to_tuple(v)) for k, v in res.scalars.items()], [(_o(k), rig.to_tuple(v)) for k, v in res.listing.items()])
-    if op in ("walk", "bulkwalk"):
+    if op in ("walk", "bulkwalk", "walk-warn", "multiwalk-warn"):
         return [(_o(vb.oid), rig.to_tuple(vb.value)) for vb in res]
     raise ValueError(op)
 
@@ -448,7 +453,7 @@ def targets(tier):
                     out.append((lv, op, var, 0, True))
     # walks: the attacker tampers with the second exchange (forgeries and attacks only)
     for lv in levels:
-        for op in ("walk", "bulkwalk"):
+        for op in ("walk", "bulkwalk", "walk-warn", "multiwalk-warn"):
             out.append((lv, op, 0, 1, False))
     return out
 
